@@ -84,6 +84,18 @@ AlphaC05 == {E(t, m, <<>>) : t \in {1, 2, 3}, m \in {"OHp", "OHr", "OHe"}}
             \cup {E(1, "OAs", <<>>), E(1, "OAr", <<0>>)}
             \cup {E(t, "OAr", <<c, tid>>) : t \in {1, 3}, c \in {0, -1}, tid \in {101, 102, 103, 201, 999}}
 
+\* C05, thread ids that repeat across looms: TIDs are unique inside a loom (one kernel) only; the remote
+\* affinity event names its target by TID and means the thread of the EMITTING thread's loom
+SysC05X == [threads |-> <<Th(101, 1001, 1, 1), Th(102, 1001, 1, 1), Th(101, 2001, 2, 2), Th(102, 2001, 2, 2)>>,
+            cpus |-> <<Cpu(1, 0, 11, FALSE), Cpu(1, 1, 10, FALSE), Cpu(1, -1, -1, TRUE),
+                       Cpu(2, 0, 21, FALSE), Cpu(2, 1, 20, FALSE), Cpu(2, -1, -1, TRUE)>>,
+            marks |-> <<>>, models |-> {"O"}]
+AlphaC05X == {E(t, "OHe", <<>>) : t \in {1, 2, 3, 4}}
+             \cup {E(t, m, <<>>) : t \in {2, 4}, m \in {"OHp", "OHr"}}
+             \cup {E(t, "OHx", <<c, 101, 7>>) : t \in {1, 2, 3, 4}, c \in {0, 1}}
+             \cup {E(t, "OAr", <<c, tid>>) : t \in {1, 3}, c \in {0, 1}, tid \in {101, 102}}
+             \cup {E(t, "OAs", <<c>>) : t \in {2, 4}, c \in {0, 1}}
+
 (* ---- C06: view consistency. 2 threads, 2 CPUs + vCPU; one value-changing
    event pair per tracking mode: ovni flush (ANY), kernel context switch
    (ANY, stack), MPI function (RUN), NODES subsystem (ACT) ---- *)
